@@ -21,7 +21,7 @@ def run(ctx, R, tier):
     R.rule("C11-R2", "stop at first failure: the handler appends one wrapper and breaks; the success path appends the result; no other append", floor=3)
     R.rule("C11-R3", "the wrapper class written by the server is the class the client re-raises (shared with C07-R5)", floor=3)
     R.rule("C11-R5", "the (name, args, kwargs) triple is written by the client and unpacked by the server in the same order", floor=1)
-    R.rule("C11-R6", "for every serializer: the batch envelope (kwargs=None) is accepted by dumpsCall/loadsCall (shared with C01-R9)", floor=8)
+    R.rule("C11-R6", "for every serializer: the batch envelope (kwargs=None) is accepted by dumpsCall/loadsCall, and marshal converts the members of the batch containers (shared with C01-R9/R10)", floor=10)
     R.rule("C11-R4", "flags: batched replies carry FLAGS_BATCH; the client sets FLAGS_BATCH (+ONEWAY); BatchProxy clears its calls after every submit; oneway returns nothing", floor=5)
 
     hr = ctx.fn("Pyro5.server.Daemon.handleRequest")
@@ -139,6 +139,8 @@ def run(ctx, R, tier):
     for o in R1.obs:
         if o.rule == "C01-R9":
             R.add("C11-R6", o.key.split("|", 1)[1], o.desc + " (a batch request carries kwargs=None: it must work with every serializer)", o.ok, o.loc, o.detail)
+        if o.rule == "C01-R10":
+            R.add("C11-R6", o.key.split("|", 1)[1], o.desc + " (batch requests and replies are containers of calls / results / exception wrappers)", o.ok, o.loc, o.detail)
 
     # ---------------------------------------------------------------- R4
     batch_true_nodes = lambda st: all(cfg.guarded(n, lambda e: edge_has_fact(e, batch_true)) for n in cfg.nodes_for(st))
